@@ -610,11 +610,13 @@ func c13Run(r *ev.Run) {
 		L, D = 12, 3
 		fps = []int{1, 2}
 	}
-	r.Rule = fmt.Sprintf("processor level: every event string over {1,0} of length %d with at most %d bad frames (B) at any position relative to triggers, pre-trigger window, recordings and stops, through Process with the harness parser and with the real lepton3.ParseRawFrame on 4x4 frames, recorder lattice; continuous recorder and test recordings on in a second pass. Oracle: bad ids never reach a sink, Process reports BadFrameErr / nil, an open motion recording is stopped within the bad-frame event, differential against the stream with the bad frames deleted (same detection results; same sink trace when no recording was cut; C01/C02 formula after a cut). Plus an explicit-state search to a FIXPOINT over {1,0,B} (any number of bad frames, streams of any length) for the fps-1 lattice, keyed on the pair (run, run with bad frames deleted). Parser level (Lepton big-endian): see parser_* counters. Non-trivial = execution with a recording.", L, D)
+	r.Rule = fmt.Sprintf("processor level: every event string over {1,0} of length %d with at most %d bad frames (B) at any position relative to triggers, pre-trigger window, recordings and stops (also with the interrupted recording's StopRecording failing), through Process with the harness parser and with the real lepton3.ParseRawFrame on 4x4 frames, recorder lattice; continuous recorder and test recordings on in a second pass. Oracle: bad ids never reach a sink, Process reports BadFrameErr / nil, an open motion recording is stopped within the bad-frame event, differential against the stream with the bad frames deleted (same detection results; same sink trace when no recording was cut; C01/C02 formula after a cut). Plus an explicit-state search to a FIXPOINT over {1,0,B} (any number of bad frames, streams of any length) for the fps-1 lattice, keyed on the pair (run, run with bad frames deleted). Parser level (Lepton big-endian): see parser_* counters. Non-trivial = execution with a recording.", L, D)
 	r.Bounds["depth"] = L
 	r.Bounds["max_bad_frames"] = D
 	var jobs []procJob
 	jobs = append(jobs, jobsFor(procLattice(fps, "raw", ""), []string{"1", "0"}, []string{"B"}, L, D)...)
+	// the bad frame must be reported as such also when closing the recording it interrupts fails
+	jobs = append(jobs, jobsFor(procLattice([]int{1}, "raw", ""), []string{"1", "0"}, []string{"Bfmx"}, L-2, 1)...)
 	var lep []PCfg
 	for _, c := range procLattice([]int{1}, "lepton", "") {
 		if c.Min <= 1 && c.Max <= 2 {
